@@ -209,7 +209,9 @@ class HamiltonianChain(MarkovChain):
         )
 
     def finite_diff(self, t: ndarray) -> ndarray:
-        p = self.posterior(t) * self.inv_temp
+        # the gradient of the (un-tempered) log-posterior: like a user-supplied 'grad',
+        # it is scaled by the inverse temperature where the leapfrog updates use it
+        p = self.posterior(t)
         G = zeros(self.n_parameters)
         for i in range(self.n_parameters):
             # relative step, falling back to an absolute one at zero-valued coordinates
@@ -222,7 +224,7 @@ class HamiltonianChain(MarkovChain):
                     h = -h
             t_step = t.copy()
             t_step[i] += h
-            G[i] = (self.posterior(t_step) * self.inv_temp - p) / h
+            G[i] = (self.posterior(t_step) - p) / h
         return G
 
     def get_last(self) -> ndarray:
